@@ -1,8 +1,19 @@
 // extract — regenerates lean/Mqtt/Generated/Facts.lean from the Go sources of
 // /repo (stdlib go/ast only).  Pure pattern matching: anything it does not
-// recognise is a fatal error, never a default.
+// recognise is an error, never a default.
 //
-//	extract <repo> <out.lean>
+//	extract [-strict] [-baseline <file>] <repo> <out.lean>
+//
+// The facts are produced section by section (one section per facts_*.go file,
+// plus "message" and "sessions" below).  Every section runs on its own: when
+// one meets a source shape it does not recognise, the text of that section is
+// taken from the committed baseline (extract/baseline/Facts.lean: the facts of
+// the unchanged repository, bin/mkbaseline), the failure is written to
+// facts_report.json next to the output and the exit status is 4.  The output
+// stays a complete Lean file; which properties the failed section concerns is
+// decided by bin/check (lib/vcheck/scope.py).  Without a baseline text for a
+// failed section (or with -strict) a failure is fatal as before: exit 3, no
+// output.  See sections.go.
 package main
 
 import (
@@ -19,9 +30,18 @@ import (
 
 var fset = token.NewFileSet()
 
+// sectionError is what die panics with; runSection (sections.go) recovers it.
+type sectionError struct{ msg string }
+
+// die: the source does not have the shape the running section recognises.
 func die(format string, a ...interface{}) {
+	panic(sectionError{fmt.Sprintf(format, a...)})
+}
+
+// fatal: usage and I/O errors (not attributable to a section).
+func fatal(format string, a ...interface{}) {
 	fmt.Fprintf(os.Stderr, "extract: "+format+"\n", a...)
-	os.Exit(3)
+	os.Exit(exitFatal)
 }
 
 func parse(repo, rel string) *ast.File {
@@ -231,33 +251,9 @@ func natList(xs []int) string {
 	return "[" + strings.Join(s, ", ") + "]"
 }
 
-func main() {
-	if len(os.Args) != 3 {
-		die("usage: extract <repo> <out.lean>")
-	}
-	repo, outPath := os.Args[1], os.Args[2]
-	o := &out{}
-	o.b.WriteString("/- GENERATED by /verif/extract from /repo — do not edit. -/\nnamespace Mqtt.Generated\n\n")
-
-	sections := []func(string, *out){factsMessage, factsSessions}
-	sections = append(sections, extraSections...)
-	for _, s := range sections {
-		s(repo, o)
-		o.b.WriteString("\n")
-	}
-	o.b.WriteString("end Mqtt.Generated\n")
-
-	new := []byte(o.b.String())
-	old, err := os.ReadFile(outPath)
-	if err == nil && bytes.Equal(old, new) {
-		return // unchanged: keep lake's cache valid
-	}
-	if err := os.WriteFile(outPath, new, 0o644); err != nil {
-		die("%v", err)
-	}
-}
-
-var extraSections []func(string, *out)
+// extraSections: the sections registered by the facts_*.go files (in file name
+// order); "message" and "sessions" below always come first (allSections).
+var extraSections []section
 
 var typeVals map[string]int
 
